@@ -15,7 +15,7 @@ RULE = ("request sequences on 7E5h over the 21 LSS command specifiers plus unkno
         "communication and the identifiers the SDO server and NMT then obey are compared; non-trivial = sequence containing >= 1 answered request; distinct by request sequence")
 ASSUMPTIONS = ["a selective / identify sequence interrupted by a mismatching or foreign LSS frame: the answer to its last frame is not constrained",
                "switch-state-global with a mode other than 0/1, cs 76 (identify non-configured slave) and response DLC are not constrained",
-               "activate-bit-timing is generated with non-zero delays only"]
+               "activate-bit-timing: delays 0..20 ms at 1 kHz"]
 VARIANTS = ["asan"]
 
 WAIT, CONF = 1, 2
@@ -76,8 +76,8 @@ class LModel:
                 self.selp = k + 1
                 return ("none",)
             t = self.selt
-            # what a repeated last frame after a completed sequence does is not constrained
-            self.selp, self.selt = 3, True
+            # the sequence is over: a repeated last frame is an out-of-sequence frame like any other
+            self.selp, self.selt = 0, False
             if t:
                 return ("open-sel",)
             self.mode = CONF
@@ -100,8 +100,8 @@ class LModel:
                 self.idp = k + 1
                 return ("none",)
             t = self.idt
-            # what a repeated last frame after a completed sequence does is not constrained
-            self.idp, self.idt = 5, True
+            # the sequence is over: a repeated last frame is an out-of-sequence frame like any other
+            self.idp, self.idt = 0, False
             if t:
                 return ("open",)
             return ("resp", bytes([0x4F]))
@@ -119,9 +119,7 @@ class LModel:
             if d[1] == 0 and d[2] < 10 and BAUD[d[2]] != 0:
                 self.pbaud = BAUD[d[2]]
                 return ("resp", bytes([19, 0]))
-            if d[1] == 0 and d[2] < 10:
-                self.pbaud = 0           # the implementation stores the undefined table entry before refusing it: harmless, 0 = unchanged
-            return ("resp", bytes([19, 1]))
+            return ("resp", bytes([19, 1]))      # refused: the pending bit rate of an earlier, accepted request stays
         if cs == 23:
             self.want_store = (self.pbaud, self.pnode)
             return ("store",)
@@ -443,7 +441,7 @@ def work(item, ctx):
                               max(0, ident[3] - rng.choice([0, 5])), min(0xFFFFFFFF, ident[3] + rng.choice([0, 5]))]
                         seq += [bytes([70 + k]) + lo[k].to_bytes(4, "little") + bytes(3) for k in range(6)]
                     elif x < 0.23:
-                        seq.append(bytes([21]) + rng.choice([1, 5, 20]).to_bytes(2, "little") + bytes(5))
+                        seq.append(bytes([21]) + rng.choice([0, 1, 5, 20]).to_bytes(2, "little") + bytes(5))
                     else:
                         seq.append(rng.choice(reqs))
                 sim = S.Sim(exe, make_cfg(ident, nid))
